@@ -62,6 +62,13 @@ def main():
     from verif.checks._sim_common import run_sim
     doc = json.load(sys.stdin)
     for h in doc.get("history", []):
+        if doc.get("defaults_idiom"):
+            # the common way of configuring a run: take the defaults, update them in place
+            from eudoxia.simulator import get_param_defaults
+            p = get_param_defaults()
+            p.update(h["params"])
+            h = dict(h)
+            h["params"] = p
         run_sim(h)
     runs = []
     for _ in range(doc.get("repeat", 1)):
